@@ -83,7 +83,10 @@ def h_add(kind, y, years, absf, wd, op, md=None, mrange=11):
                 got = delta + operand
             else:
                 got = operand - delta
-        except Exception as e:       # every cell keeps the result inside years 1..9999: nothing may raise
+        except (OverflowError, ValueError) as e:      # legitimate only when the sum leaves 0001-01-01 .. 9999-12-31 (checked below)
+            got = None
+            range_exc = type(e).__name__
+        except Exception as e:
             ctx.fail("%s raised %s: %s" % (op, type(e).__name__, str(e)[:80]), key="raises:%s" % type(e).__name__)
         # ---------------- reference (ordinal / microsecond-of-day space, fork-free)
         sg = -1 if neg else 1                           # dt - rd == dt + (-rd): relative parts negated, absolute kept
@@ -121,6 +124,11 @@ def h_add(kind, y, years, absf, wd, op, md=None, mrange=11):
             O2 = S.add(O1, jump)
         else:
             O2 = O1
+        if got is None:
+            MAXO = 3652059
+            ctx.check(S.not_(S.and_(S.within(O1, 1, MAXO), S.within(O2, 1, MAXO))),
+                      "%s raised %s although every intermediate and the result are representable dates" % (op, range_exc), key="raises:%s" % range_exc)
+            return "out-of-range"
         abs_time = any(f in absf for f in ("hour", "minute", "second", "microsecond"))
         rel_time = S.not_(S.and_(S.eq(hours, 0), S.eq(minutes, 0), S.eq(seconds, 0), S.eq(microseconds, 0)))
         promoted = S.or_(timed, abs_time, rel_time)
